@@ -12,7 +12,7 @@ R3 result-caused stop or deferral: RetryExhaustedError with stop_reason in the
 from __future__ import annotations
 
 from .. import gen as G
-from ..facts import V, analyze, entry_name, pre_aborted
+from ..facts import V, analyze, entry_name, feq, pre_aborted
 from . import common
 
 ID = "C04"
@@ -88,7 +88,7 @@ def oracle(scn, trace):
             if ree["last_result"] is not None:
                 problems.append(f"last_result {ree['last_result']} set on an exception-caused deferral")
         if deferred:
-            if ree["next_sleep_s"] != inf.applied or ree["next_sleep_s"] is None:
+            if not feq(ree["next_sleep_s"], inf.applied) or ree["next_sleep_s"] is None:
                 problems.append(f"next_sleep_s {ree['next_sleep_s']} != applied delay {inf.applied}")
         elif ree["next_sleep_s"] is not None:
             problems.append(f"next_sleep_s {ree['next_sleep_s']} on a non-deferred stop")
